@@ -265,6 +265,12 @@ def c14_2(ctx):
     ctx.check(all(len(c) == 1 for c in fcl) and lits == [('truthy', 'self._generate_binary', True)], 'closed:success-implies-image', fn.site(opens[0]),
               'when assembly gets this far the image is written whenever a binary was requested (also for a program that emits no bytes)',
               f'the image is written only when {describe_facts(fcl)}: success can be reported with no image, or with a stale one left in place')
+    # every other file the run writes (the listing) is written before the image is opened: failing to write it leaves no image
+    other = [w for w in walk_no_nested(fn.node) if isinstance(w, ast.With) and w is not opens[0] and any(
+        isinstance(i.context_expr, ast.Call) and unparse(i.context_expr.func) == 'open' and len(i.context_expr.args) > 1 and 'w' in unparse(i.context_expr.args[1]) for i in w.items)]
+    late = [w for w in other if g.reaches(on, g.node_of(w))]
+    ctx.check(bool(other) and not late, 'closed:other-files-before-image', fn.site(late[0]) if late else fn.site(opens[0]),
+              'a listing file is written before the image is opened', f'{len(late)} file(s) opened for writing after the image was written')
     pp = [n for n, c in calls_to(ctx, fn, {'bespokeasm.assembler.pretty_printer.PrettyPrinterBase.pretty_print'})]
     ok = bool(pp) and all(not g.reaches(on, g.node_of(c)) for c in pp)
     ctx.check(ok, 'closed:pretty-print-before-image', fn.site(pp[0]) if pp else fn.site(), 'pretty printing (which can abort) is rendered before the image is opened', '')
@@ -312,6 +318,15 @@ def c14_3(ctx):
         apps = {g.node_of(c) for c in ast.walk(w) if isinstance(c, ast.Call) and unparse(c.func) == 'line_obj_list.append'}
         ctx.check(bool(apps) and g.all_paths_through(be, head, apps), 'error:unknown-instruction', pl.site(w),
                   'every iteration either records a parsed line object or exits (unknown instruction)', 'an iteration can continue without having matched anything')
+    # a line whose text the statement pattern cannot read at all is an error (it is not "empty")
+    im_ = [n for n in walk_no_nested(pl.node) if isinstance(n, ast.Assign) and unparse(n.targets[0]) == 'instruction_match']
+    wl_ = [w for w in walk_no_nested(pl.node) if isinstance(w, ast.While)]
+    ok = len(im_) == 1 and bool(wl_)
+    if ok:
+        r0_ = resolver(ctx, pl, inline=False)
+        ok = all(clause_implies(facts_at(ctx, pl, w, r0_), ('isnone', 'instruction_match', False)) for w in wl_)
+    ctx.check(ok, 'error:unreadable-line', pl.site(im_[0]) if im_ else pl.site(), 'a line the statement pattern does not match at all is rejected (exit), not treated as empty',
+              'the statement loop is reached with `instruction_match is None`: a line containing e.g. a vertical tab silently disappears')
     # the bare line object (comment-only line) is built only when no statement text is left: otherwise -> exit
     r_pl = resolver(ctx, pl, inline=False)
     bare = [c for c in ast.walk(pl.node) if isinstance(c, ast.Call) and unparse(c.func) == 'LineObject']
@@ -463,7 +478,9 @@ def c14_4(ctx):
 
 def c14_5(ctx):
     ctx.rule('C14.5', 'except handlers map to an exit or to "no match"; none swallows SystemExit / Exception', 12)
-    sanctioned = {('bespokeasm.assembler.model.operand.types.numeric_expression.NumericExpressionOperand.parse_operand', 'SyntaxError')}
+    sanctioned = {('bespokeasm.assembler.model.operand.types.numeric_expression.NumericExpressionOperand.parse_operand', 'SyntaxError'),
+                  # text that is not a well-formed expression is no value of the enumeration either: "no match", the next alternative is tried
+                  ('bespokeasm.assembler.model.operand.types.numeric_enumeration.NumericEnumerationOperand.parse_operand', 'SyntaxError')}
     n = 0
     for fn in ctx.repo.all_functions():
         for t in ast.walk(fn.node):
@@ -497,6 +514,7 @@ RULES = [c14_1, c14_2, c14_3, c14_4, c14_5, c14_lines]
 _E = 'assembler/engine.py'
 _F = 'assembler/line_object/factory.py'
 MUTANTS = [
+    V('c14-unreadable-line-dropped', 'assembler/line_object/factory.py', "        else:\n            # nothing of the line could be read as statement text (e.g. a vertical tab in it): it is not an empty line\n            sys.exit(f'ERROR: {line_id} - unable to parse line \"{line_str.strip()}\"')\n", "", 'C14.3'),
     V('c14-directive-keyword-folded', 'assembler/line_object/directive_line/factory.py', "        cleaned_line_str = line_str.strip()\n        if not cleaned_line_str.startswith('.'):\n            return None\n", "        cleaned_line_str = line_str.strip()\n        if not cleaned_line_str.startswith('.'):\n            return None\n        cleaned_line_str = cleaned_line_str[:6].lower() + cleaned_line_str[6:]\n", 'C14.4'),
     V('c14-create-memzone-unanchored', 'assembler/line_object/preprocessor_line/create_memzone.py', "        r'^#create_memzone\\s+({})\\s+({})\\s+({})\\s*$'.format(", "        r'#create_memzone\\s+({})\\s+({})\\s+({})'.format(", 'C14.4'),
     V('c14-ifdef-unanchored', 'assembler/preprocessor/condition.py', "({SYMBOL_PATTERN})\\s*$'", "({SYMBOL_PATTERN})\\b'", 'C14.4'),
